@@ -91,7 +91,18 @@ def container_validators(an: Analysis) -> list[tuple[str, bool, FunctionInfo]]:
             fixed = any(isinstance(x, ast.Name) and x.id in multi for x in c.own_nodes())
             out.append((kind, fixed, c))
     have = {(k, fx) for k, fx, _ in out}
-    registered = set(factory_closures(an))
+    # a factory may hand a whole case over to another registered factory (variadic tuple -> the sequence factory):
+    # that factory's closures are analysed under their own kind
+    fcs_ = factory_closures(an)
+    by_q = {fac_.qualname: k_ for k_, (fac_, _c) in fcs_.items()}
+    for kind_, (fac_, _closures) in fcs_.items():
+        if kind_ not in CONTAINER_KINDS:
+            continue
+        for r_ in [r_ for r_ in fac_.own_nodes() if isinstance(r_, ast.Return) and isinstance(unwrap(r_.value), ast.Call)]:
+            target_kind = by_q.get(an.callee(fac_, unwrap(r_.value)) or "")
+            if target_kind == "sequence" and kind_ == "tuple" and ("sequence", False) in have:
+                have.add(("tuple", False))
+    registered = set(fcs_)
     missing = {m for m in {("set", False), ("sequence", False), ("mapping", False), ("tuple", False), ("tuple", True)} - have if m[0] in registered}
     if missing:
         raise AnalysisError(f"container validator closures not found for {sorted(missing)}")
@@ -272,7 +283,10 @@ def check(an: Analysis) -> None:
         ob.fail(rep, None, "__replace__ returns nothing")
     for r in rets:
         ob.inst(rep, r)
-        v = unwrap(r.value)
+        v = unwrap(r.value) if r.value is not None else None
+        for _hop in range(3):  # `result = self.__class__(**values); return result` (e.g. the return slot of an inlined helper)
+            if isinstance(v, ast.Name) and (sv_ := drep.single_value(v.id)) is not None:
+                v = unwrap(sv_)
         ok = isinstance(v, ast.Call) and dotted(v.func) in ("self.__class__", "type(self)") or (isinstance(v, ast.Call) and isinstance(v.func, ast.Call) and is_name(v.func.func, "type"))
         if not ok or v.args or len(v.keywords) != 1 or v.keywords[0].arg is not None:
             ob.fail(rep, r, "the updated copy is not rebuilt through the validating constructor self.__class__(**...)")
@@ -324,9 +338,15 @@ def check(an: Analysis) -> None:
     # ------------------------------------------------------------------ C04.6 copy protocols rebuild through the constructor
     ob = an.ob("C04.6", "K5", "__copy__ = self.__class__(**vars(self)); __deepcopy__ = self.__class__(**{key: deepcopy(value, memo) for key, value in vars(self).items()})", [f"{ST}.__copy__", f"{ST}.__deepcopy__"])
     cp = prog.fn(f"{ST}.__copy__")
+    dcp = Deps(prog, cp)
     for r in [r for r in cp.own_nodes() if isinstance(r, ast.Return)]:
         ob.inst(cp, r)
-        v = unwrap(r.value)
+        v = unwrap(r.value) if r.value is not None else None
+        for _hop in range(3):
+            if isinstance(v, ast.Name) and (sv_ := dcp.single_value(v.id)) is not None:
+                v = unwrap(sv_)
+        if isinstance(v, ast.Call) and len(v.keywords) == 1 and v.keywords[0].arg is None and isinstance(v.keywords[0].value, ast.Name) and not dcp.contributions(cp, v.keywords[0].value.id) and (sv_ := dcp.single_value(v.keywords[0].value.id)) is not None:
+            v = ast.Call(func=v.func, args=v.args, keywords=[ast.keyword(arg=None, value=sv_)])  # `values = vars(self)` passed on untouched
         ok = isinstance(v, ast.Call) and dotted(v.func) == "self.__class__" and not v.args and len(v.keywords) == 1 and v.keywords[0].arg is None
         if ok:
             kv = unwrap(v.keywords[0].value)
@@ -395,7 +415,8 @@ def check(an: Analysis) -> None:
     def attr_compare(c: ast.AST, key: str) -> bool:
         if not (isinstance(c, ast.Compare) and len(c.ops) == 1 and isinstance(c.ops[0], (ast.Eq, ast.NotEq))):
             return False
-        sides = [c.left, c.comparators[0]]
+        deq = Deps(prog, eq)
+        sides = [unwrap(deq.single_value(x.id)) if isinstance(x, ast.Name) and deq.single_value(x.id) is not None else x for x in (c.left, c.comparators[0])]
         if not all(isinstance(x, ast.Call) and is_name(x.func, "getattr") and len(x.args) >= 2 and is_name(x.args[1], key) for x in sides):
             return False
         return {sides[0].args[0].id if isinstance(sides[0].args[0], ast.Name) else "", sides[1].args[0].id if isinstance(sides[1].args[0], ast.Name) else ""} == {"self", other}
